@@ -60,6 +60,13 @@ def calls_programs(q, arglists, config=None, per=6, spell=None, multi=True, pre=
                 stmts.append("zz_r = " + ls[1])
         for ch in chunks(stmts, per):
             out.append(P(list(pre) + list(imports) + ch, config))
+    # whatever the tier selects above: one program per name under the spellings where a same-named method / inner function
+    # stands between the import and the calls
+    if spell is not None and arglists:
+        for name, imports, callee in spellings(q):
+            if "same_name" in name:
+                stmts = [layouts(callee, args)[0] for args in arglists[:per]]
+                out.append(P(list(pre) + list(imports) + stmts, config))
     return out
 
 
